@@ -500,7 +500,7 @@ func c06Codes(r *Run, w *World) {
 	}
 	swCheck("ruleData", "setList", "p1", map[string]string{"exit": "AUDIT_FILTER_EXIT", "task": "AUDIT_FILTER_TASK", "user": "AUDIT_FILTER_USER", "exclude": "AUDIT_FILTER_EXCLUDE"}, "store p0.flags = %d")
 	swCheck("ruleData", "setAction", "p1", map[string]string{"always": "AUDIT_ALWAYS", "never": "AUDIT_NEVER"}, "store p0.action = %d")
-	swCheck("", "getPerm", "rangeval(range(p0))", map[string]string{"114": "AUDIT_PERM_READ", "119": "AUDIT_PERM_WRITE", "120": "AUDIT_PERM_EXEC", "97": "AUDIT_PERM_ATTR"}, "phi (↺ | %d)")
+	swCheck("", "getPerm", "rangeval(range(p0))", map[string]string{"114": "AUDIT_PERM_READ", "119": "AUDIT_PERM_WRITE", "120": "AUDIT_PERM_EXEC", "97": "AUDIT_PERM_ATTR"}, "phi (%d | ↺)")
 	swCheck("", "getFiletype", "strings.ToLower(p0)", map[string]string{"file": "S_IFREG", "dir": "S_IFDIR", "socket": "S_IFSOCK", "symlink": "S_IFLNK", "char": "S_IFCHR", "block": "S_IFBLK", "fifo": "S_IFIFO"}, "ret %d, nil")
 	for _, e := range []struct{ name, def string }{
 		{"syscallBitmaskSize", "AUDIT_BITMASK_SIZE"}, {"maxFields", "AUDIT_MAX_FIELDS"}, {"maxKeyLength", "AUDIT_MAX_KEY_LEN"},
@@ -701,36 +701,85 @@ func c07ReverseTables(r *Run, w *World, ruleID string) {
 	} else {
 		r.Anchor(err)
 	}
-	// buildReverse*: each MapUpdate stores reverse[value] = key of the ranged pair
-	for _, name := range []string{"buildReverseOperatorsTable", "buildReverseFieldsTable", "buildReverseArchTable", "buildReverseSyscallTable"} {
-		fn, err := w.Func("rule", name)
-		if err != nil {
-			r.Anchor(err)
-			continue
+	// wherever a reverse table is filled, each MapUpdate stores reverse[value] = key of the ranged
+	// pair. The tables are found by the globals they end up in, not by the name of the function
+	// that builds them: a map counts as reverse table G when it is loaded from G, or is a fresh
+	// map of the same function that is stored into G (or into a map that is).
+	globals := []string{"reverseOperatorsTable", "reverseFieldsTable", "reverseArch", "reverseSyscall"}
+	feeds := func(m ssa.Value, fn *ssa.Function) string {
+		var rec func(m ssa.Value, depth int) string
+		rec = func(m ssa.Value, depth int) string {
+			if depth > 3 {
+				return ""
+			}
+			m = stripConv(m)
+			if ld, ok := m.(*ssa.UnOp); ok && ld.Op == token.MUL {
+				if g, ok := ld.X.(*ssa.Global); ok && containsStr(globals, g.Name()) {
+					return g.Name()
+				}
+			}
+			if refs := m.Referrers(); refs != nil {
+				if _, isMk := m.(*ssa.MakeMap); isMk {
+					for _, rf := range *refs {
+						switch u := rf.(type) {
+						case *ssa.Store:
+							if g, ok := u.Addr.(*ssa.Global); ok && u.Val == m && containsStr(globals, g.Name()) {
+								return g.Name()
+							}
+						case *ssa.MapUpdate:
+							if u.Value == m {
+								if g := rec(u.Map, depth+1); g != "" {
+									return g
+								}
+							}
+						case *ssa.Phi:
+							if prefs := u.Referrers(); prefs != nil {
+								for _, prf := range *prefs {
+									if st, ok := prf.(*ssa.Store); ok && st.Val == ssa.Value(u) {
+										if g, ok := st.Addr.(*ssa.Global); ok && containsStr(globals, g.Name()) {
+											return g.Name()
+										}
+									}
+								}
+							}
+						}
+					}
+				}
+			}
+			return ""
 		}
-		n := 0
+		return rec(m, 0)
+	}
+	count := map[string]int{}
+	for _, fn := range w.PkgFuncs("rule") {
 		instrsOf(fn, func(in ssa.Instruction) {
 			mu, ok := in.(*ssa.MapUpdate)
 			if !ok {
+				return
+			}
+			g := feeds(mu.Map, fn)
+			if g == "" {
 				return
 			}
 			k, v := Term(mu.Key), Term(mu.Value)
 			if strings.HasPrefix(k, "rangekey(") && strings.HasPrefix(v, "make(") {
 				return // reverseSyscall[arch] = archTable
 			}
-			n++
+			count[g]++
 			ok = strings.HasPrefix(k, "rangeval(") && strings.HasPrefix(v, "rangekey(") && strings.TrimPrefix(k, "rangeval(") == strings.TrimPrefix(v, "rangekey(")
-			if !ok && strings.HasPrefix(k, "uint32(rangeval(") {
-				// value-converting reverse (reverseArch stores uint32(arch))
-				ok = false
-			}
 			if !ok {
 				// reverseArch[name] = uint32(arch): key is the ranged *value* (name), value the converted ranged *key*
 				ok = strings.HasPrefix(k, "rangeval(") && strings.HasPrefix(v, "uint32(rangekey(") && strings.TrimPrefix(k, "rangeval(")+")" == strings.TrimPrefix(v, "uint32(rangekey(")
 			}
-			r.Check(ok, name+" stores reverse[v] = k", mu.Pos(), "", "reverse table entry is "+k+" → "+v+", not value → key")
+			r.Check(ok, g+" stores reverse[v] = k", mu.Pos(), "", "reverse table entry is "+k+" → "+v+", not value → key")
 		})
-		r.Check(n == 1, name+" has one reverse store", fn.Pos(), "", fmt.Sprintf("%d", n))
+	}
+	for _, g := range globals {
+		if _, err := w.Global("rule", g); err != nil {
+			r.Anchor(err)
+			continue
+		}
+		r.Check(count[g] == 1, g+" has one reverse store", token.NoPos, "", fmt.Sprintf("%d stores fill %s", count[g], g))
 	}
 }
 
